@@ -660,7 +660,7 @@ def oracle(case, out):
             if cafile != want_ca:
                 return 'upstream verified against %r instead of the configured trust store %r' % (cafile, want_ca)
         if sni != strip_brackets(host.decode()):
-            return 'server_hostname %r is not the CONNECT host %r' % (sni, host)
+            return 'server_hostname %r is not the CONNECT host %r (IPv6 literals without their brackets)' % (sni, host)
     if not engaged(case) and (wraps or cwraps or ossl):
         return 'TLS wrap / certificate generation although interception is off or a plugin opted out'
     if case['connect']:
@@ -787,7 +787,7 @@ def default_events(case, rng, answers=None):
     return [('c', a, c1), ('fu',), ('u', a, u1), ('fc',), ('c', a, c2), ('u', a, u2), ('fu',), ('fc',)]
 
 
-def table(rng):
+def table(rng, full=True):
     """the outcome table; every row is a dict of overrides of base_case"""
     rows = []
     flag_sets = [dict(ALL_FLAGS)] + [dict(ALL_FLAGS, **{k: False}) for k in ('ca_key_file', 'ca_cert_dir', 'ca_signing_key_file', 'ca_cert_file')] + \
@@ -797,6 +797,8 @@ def table(rng):
         for a in answer_sets:
             for ins in (False, True):
                 for conn in (None, 'refused'):
+                    if conn and not full and not (fs in (flag_sets[0], flag_sets[3]) and a in ([], [False], [True, True])):
+                        continue          # quick tier: a failed connect is decided before any flag or plugin is consulted
                     rows.append(dict(kind='gate', flags=fs, answers=a, insecure=ins, connect=conn))
     rows.append(dict(kind='gate', connect='timeout'))
     rows.append(dict(kind='gate', connect='gaierror'))
@@ -869,7 +871,7 @@ def make_case(row, host, rng):
 
 
 def generate(rng, tier):
-    rows = table(rng)
+    rows = table(rng, full=(tier == 'thorough'))
     cases = []
     if tier == 'thorough':
         for host in HOSTS:
@@ -890,3 +892,274 @@ def shrink(case, fails):
         if t != cur and fails(t):
             cur = t
     return cur
+
+
+# ======================================================================================= thorough tier: live run, real openssl
+def _sh(*cmd, cwd=None):
+    p = subprocess.run(cmd, cwd=cwd, stdout=subprocess.PIPE, stderr=subprocess.STDOUT, timeout=60)
+    if p.returncode:
+        raise RuntimeError('%r failed: %s' % (cmd, p.stdout.decode()[-400:]))
+    return p.stdout.decode()
+
+
+def _make_pki(d):
+    """proxy CA + leaf key through the repo's own pki.py; an origin CA (= the proxy's --ca-file) and four origin certificates"""
+    from proxy.common import pki
+    j = lambda n: os.path.join(d, n)
+    assert pki.gen_private_key(j('ca.enc.key'), 'pw') and pki.remove_passphrase(j('ca.enc.key'), 'pw', j('ca.key'))
+    assert pki.gen_public_key(j('ca.pem'), j('ca.key'), '', '/CN=C11 proxy CA')
+    assert pki.gen_private_key(j('sign.enc.key'), 'pw') and pki.remove_passphrase(j('sign.enc.key'), 'pw', j('sign.key'))
+    _sh('openssl', 'req', '-x509', '-newkey', 'rsa:2048', '-nodes', '-keyout', 'oca.key', '-out', 'trust.pem',
+        '-subj', '/CN=C11 origin CA', '-days', '2', '-addext', 'basicConstraints=critical,CA:TRUE', cwd=d)
+    _sh('openssl', 'genrsa', '-out', 'origin.key', '2048', cwd=d)
+    good_san = 'DNS:localhost,IP:127.0.0.1,IP:::1'
+
+    def leaf(name, san, signer='oca'):
+        _sh('openssl', 'req', '-new', '-key', 'origin.key', '-subj', '/CN=origin.test/O=Origin Org', '-out', name + '.csr', cwd=d)
+        open(j(name + '.ext'), 'w').write('subjectAltName=%s\n' % san)
+        if signer == 'self':
+            _sh('openssl', 'x509', '-req', '-in', name + '.csr', '-signkey', 'origin.key', '-days', '2', '-extfile', name + '.ext', '-out', name + '.pem', cwd=d)
+        else:
+            _sh('openssl', 'x509', '-req', '-in', name + '.csr', '-CA', 'trust.pem', '-CAkey', 'oca.key', '-set_serial', str(1000 + len(name)),
+                '-days', '2', '-extfile', name + '.ext', '-out', name + '.pem', cwd=d)
+    leaf('good', good_san)
+    leaf('selfsigned', good_san, signer='self')
+    leaf('wrongname', 'DNS:other.example,IP:10.9.9.9')
+    os.makedirs(j('cadb'))
+    open(j('cadb/index.txt'), 'w').close()
+    open(j('cadb/serial'), 'w').write('77\n')
+    open(j('ca.cnf'), 'w').write(
+        '[ca]\ndefault_ca=x\n[x]\ndir=%s/cadb\ndatabase=$dir/index.txt\nnew_certs_dir=$dir\nserial=$dir/serial\n'
+        'default_md=sha256\npolicy=pol\nunique_subject=no\ncopy_extensions=none\n[pol]\ncommonName=supplied\norganizationName=optional\n'
+        '[ext]\nsubjectAltName=%s\n' % (d, good_san))
+    _sh('openssl', 'req', '-new', '-key', 'origin.key', '-subj', '/CN=origin.test/O=Origin Org', '-out', 'expired.csr', cwd=d)
+    _sh('openssl', 'ca', '-batch', '-config', 'ca.cnf', '-cert', 'trust.pem', '-keyfile', 'oca.key', '-in', 'expired.csr',
+        '-out', 'expired.pem', '-startdate', '20200101000000Z', '-enddate', '20200102000000Z', '-extensions', 'ext', '-notext', cwd=d)
+
+
+class _Origin(threading.Thread):
+    """tiny TLS origin: records what it receives inside TLS and answers with a body naming the request line"""
+    def __init__(self, d, cert, family=socket.AF_INET):
+        super().__init__(daemon=True)
+        self.ctx = ssl.SSLContext(ssl.PROTOCOL_TLS_SERVER)
+        self.ctx.load_cert_chain(os.path.join(d, cert + '.pem'), os.path.join(d, 'origin.key'))
+        self.sock = socket.socket(family)
+        self.sock.setsockopt(socket.SOL_SOCKET, socket.SO_REUSEADDR, 1)
+        self.sock.bind(('::1' if family == socket.AF_INET6 else '127.0.0.1', 0))
+        self.sock.listen(8)
+        self.port = self.sock.getsockname()[1]
+        self.received = []
+        self.stop = False
+
+    def run(self):
+        self.sock.settimeout(0.2)
+        while not self.stop:
+            try:
+                c, _ = self.sock.accept()
+            except socket.timeout:
+                continue
+            except OSError:
+                break
+            threading.Thread(target=self.serve, args=(c,), daemon=True).start()
+
+    def serve(self, c):
+        c.settimeout(5)
+        try:
+            t = self.ctx.wrap_socket(c, server_side=True)
+        except Exception as e:
+            self.received.append(('handshake-failed', type(e).__name__))
+            c.close()
+            return
+        buf = b''
+        try:
+            while b'\r\n\r\n' not in buf:
+                x = t.recv(65536)
+                if not x:
+                    break
+                buf += x
+            self.received.append(('data', buf))
+            if buf:
+                body = b'origin-saw:' + buf.split(b'\r\n')[0]
+                t.sendall(b'HTTP/1.1 200 OK\r\nContent-Length: %d\r\nX-Origin: yes\r\n\r\n' % len(body) + body)
+            time.sleep(0.1)
+        except Exception as e:
+            self.received.append(('error', type(e).__name__))
+        finally:
+            try:
+                t.close()
+            except Exception:
+                pass
+
+
+def _client(proxy_port, host, port, trust_pem):
+    """CONNECT host:port through the proxy, verifying TLS handshake for that host against trust_pem, one GET"""
+    obs = {}
+    s = socket.create_connection(('127.0.0.1', proxy_port), timeout=10)
+    try:
+        target = '%s:%d' % (host, port)
+        s.sendall(('CONNECT %s HTTP/1.1\r\nHost: %s\r\n\r\n' % (target, target)).encode())
+        buf = b''
+        while b'\r\n\r\n' not in buf:
+            x = s.recv(4096)
+            if not x:
+                break
+            buf += x
+        obs['connect_reply'] = buf
+        if not buf.startswith(b'HTTP/1.1 200'):
+            return obs
+        ctx = ssl.create_default_context(cafile=trust_pem)
+        try:
+            t = ctx.wrap_socket(s, server_hostname=strip_brackets(host))
+        except ssl.SSLCertVerificationError as e:
+            obs['handshake'] = 'verify-failed: %s' % e.verify_message
+            return obs
+        except (ssl.SSLError, OSError) as e:
+            obs['handshake'] = 'failed: %s' % type(e).__name__
+            return obs
+        obs['handshake'] = 'ok'
+        cert = t.getpeercert()
+        obs['issuer'] = cert.get('issuer')
+        obs['san'] = cert.get('subjectAltName')
+        req = b'GET /hello?x=1 HTTP/1.1\r\nHost: %s\r\n\r\n' % target.encode()
+        obs['request'] = req
+        t.sendall(req)
+        t.settimeout(5)
+        resp = b''
+        try:
+            while True:
+                x = t.recv(65536)
+                if not x:
+                    break
+                resp += x
+                if b'\r\n\r\n' in resp:
+                    head, body = resp.split(b'\r\n\r\n', 1)
+                    if b'Content-Length: ' in head and len(body) >= int(head.split(b'Content-Length: ')[1].split(b'\r\n')[0]):
+                        break
+        except (socket.timeout, OSError) as e:
+            obs['read_error'] = type(e).__name__
+        obs['response'] = resp
+        return obs
+    finally:
+        try:
+            s.close()
+        except Exception:
+            pass
+
+
+def _opt_out_plugin():
+    from proxy.http.proxy import HttpProxyBasePlugin
+
+    class C11OptOutPlugin(HttpProxyBasePlugin):
+        def do_intercept(self, request):
+            return False
+    return C11OptOutPlugin
+
+
+def live_run():
+    """real openssl, real proxy.py, real TLS on loopback; returns (failures, notes, count)"""
+    import proxy
+    failures, notes, count = [], [], 0
+    d = tempfile.mkdtemp(prefix='verif-C11-live-')
+    origins = {}
+    try:
+        _make_pki(d)
+        for cert in ('good', 'selfsigned', 'wrongname', 'expired'):
+            origins[cert] = _Origin(d, cert); origins[cert].start()
+        try:
+            origins['good6'] = _Origin(d, 'good', socket.AF_INET6); origins['good6'].start()
+        except OSError:
+            notes.append('live: no IPv6 loopback, [::1] not exercised')
+        base = ['--hostname', '127.0.0.1', '--port', '0', '--num-acceptors', '1', '--num-workers', '1', '--threadless',
+                '--ca-key-file', os.path.join(d, 'ca.key'), '--ca-cert-file', os.path.join(d, 'ca.pem'),
+                '--ca-signing-key-file', os.path.join(d, 'sign.key'), '--ca-file', os.path.join(d, 'trust.pem'), '--log-level', 'c']
+        for mode in ('secure', 'insecure', 'optout'):
+            certdir = os.path.join(d, 'certs-' + mode)
+            os.makedirs(certdir)
+            args = base + ['--ca-cert-dir', certdir] + (['--insecure-tls-interception'] if mode == 'insecure' else [])
+            kw = {'plugins': [_opt_out_plugin()]} if mode == 'optout' else {}
+            with proxy.Proxy(args, **kw) as p:
+                pp = p.flags.port
+                for cert, o in origins.items():
+                    hosts = ['[::1]'] if cert == 'good6' else ['localhost', '127.0.0.1']
+                    if mode == 'optout' and cert not in ('good', 'good6'):
+                        continue
+                    for h in hosts:
+                        for rep in ('cold', 'warm'):
+                            n0 = len(o.received)
+                            trust = os.path.join(d, 'trust.pem' if mode == 'optout' else 'ca.pem')
+                            obs = _client(pp, h, o.port, trust)
+                            time.sleep(0.15)
+                            got = o.received[n0:]
+                            count += 1
+                            plaintext = b''.join(x for k, x in got if k == 'data')
+                            what = None
+                            good = cert in ('good', 'good6')
+                            if mode == 'optout':
+                                if obs.get('handshake') != 'ok' or dict((k[0][0], k[0][1]) for k in obs.get('issuer', ())).get('commonName') != 'C11 origin CA':
+                                    what = 'opted-out CONNECT did not reach the origin\'s own TLS endpoint (client saw %r)' % (obs.get('issuer') or obs.get('handshake'),)
+                                elif plaintext != obs['request'] or b'origin-saw:GET /hello?x=1 HTTP/1.1' not in obs.get('response', b''):
+                                    what = 'opted-out tunnel did not carry the exchange byte for byte'
+                                elif os.listdir(certdir):
+                                    what = 'certificate generated for an opted-out connection'
+                            elif mode == 'secure' and not good:
+                                if plaintext or obs.get('response'):
+                                    what = 'application data relayed although the origin certificate is %s' % cert
+                                elif obs.get('handshake') == 'ok':
+                                    what = 'client was presented a certificate for an origin whose certificate is %s' % cert
+                            else:
+                                if obs.get('handshake') != 'ok':
+                                    what = 'a verifying client rejected the generated certificate for %s: %s' % (h, obs.get('handshake'))
+                                else:
+                                    issuer = dict((k[0][0], k[0][1]) for k in obs['issuer'])
+                                    sans = obs.get('san') or ()
+                                    want_kind = 'IP Address' if is_ip(strip_brackets(h)) else 'DNS'
+                                    ok_san = any(k == want_kind and (v == h if want_kind == 'DNS' else ipaddress.ip_address(v) == ipaddress.ip_address(strip_brackets(h))) for k, v in sans)
+                                    if issuer.get('commonName') != 'C11 proxy CA':
+                                        what = 'generated certificate not issued by the configured CA: %r' % (issuer,)
+                                    elif not ok_san:
+                                        what = 'generated certificate does not name %s: %r' % (h, sans)
+                                    elif plaintext.split(b'\r\n')[0] != b'GET /hello?x=1 HTTP/1.1' or b'host: ' + ('%s:%d' % (h, o.port)).encode() not in plaintext.lower():
+                                        what = 'request sent inside TLS did not reach the origin with its meaning: %r' % plaintext[:120]
+                                    elif not obs.get('response', b'').endswith(b'origin-saw:GET /hello?x=1 HTTP/1.1') or b'X-Origin: yes' not in obs['response']:
+                                        what = 'origin response did not return intact: %r' % obs.get('response', b'')[:120]
+                            if what:
+                                failures.append(dict(case=dict(kind='live', mode=mode, origin_cert=cert, host=h, cache=rep),
+                                                     out=C.jsonable(dict(obs=obs, origin=got)), what='live: ' + what))
+                if mode != 'optout':
+                    names = sorted(os.listdir(certdir))
+                    notes.append('live %s: cache files %s' % (mode, names))
+    finally:
+        for o in origins.values():
+            o.stop = True
+            try:
+                o.sock.close()
+            except Exception:
+                pass
+        shutil.rmtree(d, ignore_errors=True)
+    return failures, notes, count
+
+
+EXHAUSTIVE_SCOPE = ('every outcome of every oracle call site of the decision procedure, enumerated stage by stage (a later stage is only '
+                    'varied on the path that reaches it; the independence of a stage from which passing variant of the earlier stages was '
+                    'taken is part of the proved model, not of the enumeration), crossed with the host list; in Coq the same table '
+                    '(62 640 scenarios x 3 host kinds) is evaluated against the boolean renderings of the theorems (C11_outcome_table_sweep)')
+
+
+def extra_checks(rng, tier):
+    res = {'failures': [], 'notes': [], 'exhaustive': True, 'exhaustive_scope': EXHAUSTIVE_SCOPE, 'hosts': [h.decode() for h in HOSTS]}
+    if tier != 'thorough':
+        res['notes'].append('live openssl run only in the thorough tier')
+        return res
+    t0 = time.time()
+    try:
+        failures, notes, n = live_run()
+    except Exception as e:
+        import traceback
+        res['notes'].append('live run could not be carried out: %r %s' % (e, traceback.format_exc()[-600:]))
+        res['live_runs'] = 0
+        return res
+    res['failures'] = failures
+    res['notes'] += notes
+    res['live_runs'] = n
+    res['live_wall_s'] = round(time.time() - t0, 1)
+    return res
